@@ -27,10 +27,33 @@ D4_WITNESSES = [
 
 
 def lexdump(ctx, d):
+    """verifdump lexdump, with the patterns of the implicit string-literal tokens REBUILT from the literal's own spelling (the
+    terminal's name in the token map): the specification of such a token is 'the literal's characters', independently of how gocc
+    constructs its pattern. Returns (path, list of literals whose gocc-built pattern differs)."""
+    import json
     p = subprocess.run([ctx.verifdump, "lexdump", os.path.join(d, "g.bnf")], capture_output=True, text=True, timeout=120)
+    if p.returncode != 0 or not p.stdout.strip():
+        return None, []
+    lr = subprocess.run([ctx.verifdump, "lr", os.path.join(d, "g.bnf")], capture_output=True, text=True, timeout=120)
+    try:
+        terms = json.loads(lr.stdout)["terminals"]
+    except Exception:
+        terms = []
+    out = []
+    differ = []
+    for line in p.stdout.split("\n"):
+        w = line.split()
+        if len(w) > 3 and w[0] == "T" and w[2] == "1" and int(w[1]) < len(terms):
+            name = terms[int(w[1])]
+            want = "P 1 A %d " % len(name) + " ".join("c %d" % ord(ch) for ch in name)
+            got = " ".join(w[3:])
+            if got != want:
+                differ.append(name)
+            line = "T %s 1 %s" % (w[1], want)
+        out.append(line)
     path = os.path.join(d, "g.lexdump")
-    open(path, "w").write(p.stdout)
-    return path if p.returncode == 0 and p.stdout.strip() else None
+    open(path, "w").write("\n".join(out))
+    return path, differ
 
 
 def bisim(ctx, dump, table, fuel=200000):
@@ -119,7 +142,8 @@ def run(ctx):
     samples = []
     kernel_batch = []
     for r in recs:
-        dump = lexdump(ctx, r.dir)
+        dump, differ = lexdump(ctx, r.dir)
+        ctx.add_obligation("R: gocc's pattern for every string-literal token of %s is the literal's characters" % r.name, not differ, str(differ[:3]))
         verdict = bisim(ctx, dump, r.table) if dump else "NO-LEXDUMP"
         ok = verdict.startswith("CLOSED") and "check=true" in verdict and "emitted_equals_itemsets=true" in verdict
         ctx.add_obligation("R: bisim_check(emitted DFA of %s, lexical rules) = true (extracted verified checker)" % r.name, ok, verdict[:300])
@@ -170,7 +194,7 @@ def run(ctx):
         open(os.path.join(d, "go.mod"), "w").write("module x\n\ngo 1.24\n")
         open(os.path.join(d, "w", "g.bnf"), "w").write(text)
         rc = subprocess.run([ctx.gocc, "g.bnf"], cwd=os.path.join(d, "w"), capture_output=True, timeout=60).returncode
-        dump = lexdump(ctx, os.path.join(d, "w"))
+        dump, _ = lexdump(ctx, os.path.join(d, "w"))
         v = subprocess.run([ctx.modelrun, "bisim", dump, "200000"], capture_output=True, text=True).stdout.strip() if dump else "NO-LEXDUMP"
         still = not ("CLOSED" in v and "check=true" in v)
         if still and wid in known:
